@@ -51,6 +51,20 @@ func (c16) Gen(r *rand.Rand, tier string, run int) *core.Case {
 		actors = 1 + r.IntN(2)
 	}
 	c.Params["slow_ms"] = r.IntN(4)
+	if c.Batch == "" && r.IntN(6) == 0 {
+		// an implementation value lives twice: removed one way, added again,
+		// called, removed again (the same or another way), called
+		c.Batch = "second-life"
+		x := int64(1 + r.IntN(objs))
+		ways := []string{"remove", "terminate", "terminate", "self"}
+		c.Ops = append(c.Ops,
+			core.Op{Kind: ways[r.IntN(4)], Actor: 40, X: x, Y: int64(r.IntN(3))},
+			core.Op{Kind: "readd", Actor: 40, X: x},
+			core.Op{Kind: "call", Actor: 40, X: -1},
+			core.Op{Kind: ways[r.IntN(4)], Actor: 40, X: -1, Y: int64(r.IntN(3))},
+			core.Op{Kind: "call", Actor: 40, X: -1})
+		actors = r.IntN(3)
+	}
 	if c.Batch == "" && r.IntN(4) == 0 {
 		c.Batch = "burst"
 		c.Params["conns"] = 2 + r.IntN(2)
@@ -70,7 +84,7 @@ func (c16) Gen(r *rand.Rand, tier string, run int) *core.Case {
 			case x < 8:
 				op = core.Op{Kind: "terminate", X: int64(1 + r.IntN(objs))}
 			default:
-				op = core.Op{Kind: "add"}
+				op = core.Op{Kind: []string{"add", "add", "readd"}[r.IntN(3)], X: int64(1 + r.IntN(objs))}
 			}
 			op.Actor = a
 			op.Y = int64(r.IntN(2))
@@ -81,6 +95,15 @@ func (c16) Gen(r *rand.Rand, tier string, run int) *core.Case {
 }
 
 type c16obj struct {
+	// an implementation value may live several lives (added again after
+	// its removal): each life is a record of its own
+	execSlot   int  // what the implementation writes into the execution log
+	actor      bus.Actor
+	termBase   int  // termination hooks that ran in earlier lives
+	frozen     bool // a later life began: termAt is this life's final count
+	termAt     int
+	readded    bool
+	removing   int // removal operations in progress
 	slot       int
 	id         uint32
 	impl       *ProbeImpl
@@ -127,16 +150,29 @@ func (c16) Run(c *core.Case, env *core.Env) {
 		}
 		clients = append(clients, cl)
 	}
-	add := func(a int) *c16obj {
+	add := func(a int, prev *c16obj) *c16obj {
 		h := env.Invoke(a, "add", "")
 		zzsim.SetNode("server")
-		impl := &ProbeImpl{Env: env, SlowMs: c.P("slow_ms", 0)}
+		var impl *ProbeImpl
+		var actor bus.Actor
 		st.mu.Lock()
-		o := &c16obj{slot: len(st.objs), impl: impl}
-		impl.Obj = o.slot
+		o := &c16obj{slot: len(st.objs)}
+		if prev != nil {
+			// the same implementation value, added again after its removal
+			impl, actor = prev.impl, prev.actor
+			prev.frozen, prev.termAt = true, impl.Terminated()
+			o.termBase = prev.termAt
+			o.execSlot = prev.execSlot
+		} else {
+			impl = &ProbeImpl{Env: env, SlowMs: c.P("slow_ms", 0)}
+			impl.Obj = o.slot
+			actor = probe.ProbeObject(impl)
+			o.execSlot = o.slot
+		}
+		o.impl, o.actor = impl, actor
 		st.objs = append(st.objs, o)
 		st.mu.Unlock()
-		id, err := w.Svc.Add(probe.ProbeObject(impl))
+		id, err := w.Svc.Add(actor)
 		zzsim.SetNode("harness")
 		env.Return(h, fmt.Sprintf("slot%d id=%d", o.slot, id), err)
 		if err != nil {
@@ -205,7 +241,7 @@ func (c16) Run(c *core.Case, env *core.Env) {
 		}()
 	}
 	// slot 0 is the service's own object: never removed
-	st.objs = append(st.objs, &c16obj{slot: 0, id: 1, impl: w.Impls[0], addRet: 1})
+	st.objs = append(st.objs, &c16obj{slot: 0, execSlot: 0, id: 1, impl: w.Impls[0], addRet: 1})
 	for _, cl := range clients {
 		p, err := ProbeProxy(cl, w.ServiceID, 1)
 		if err != nil {
@@ -215,7 +251,7 @@ func (c16) Run(c *core.Case, env *core.Env) {
 		st.objs[0].proxies = append(st.objs[0].proxies, p)
 	}
 	for i := 0; i < c.P("objects", 2); i++ {
-		o := add(90)
+		o := add(90, nil)
 		if o == nil {
 			env.Violate("setup/add", "adding an object failed")
 			return
@@ -236,18 +272,49 @@ func (c16) Run(c *core.Case, env *core.Env) {
 	pick := func(x int64) *c16obj {
 		st.mu.Lock()
 		defer st.mu.Unlock()
+		if x < 0 {
+			// the object added last among those whose Add has returned
+			for i := len(st.objs) - 1; i > 0; i-- {
+				if st.objs[i].addRet != 0 {
+					return st.objs[i]
+				}
+			}
+			return st.objs[0]
+		}
 		return st.objs[int(x)%len(st.objs)]
 	}
+	var lifeMu sync.Mutex // a new life of an implementation value / its self-termination
 	removal := func(a int, kind string, o *c16obj, y int) {
-		if o.slot == 0 {
+		st.mu.Lock()
+		added := o.addRet != 0
+		st.mu.Unlock()
+		if o.slot == 0 || !added {
 			return
+		}
+		if kind == "self" {
+			// the implementation's activation belongs to its latest life:
+			// no new life may begin between this test and the call
+			lifeMu.Lock()
+			defer lifeMu.Unlock()
+			st.mu.Lock()
+			stale := o.readded
+			st.mu.Unlock()
+			if stale {
+				return
+			}
 		}
 		h := env.Invoke(a, kind, fmt.Sprintf("slot%d id=%d", o.slot, o.id))
 		st.mu.Lock()
 		if o.removeCall == 0 {
 			o.removeCall = h.Call
 		}
+		o.removing++
 		st.mu.Unlock()
+		defer func() {
+			st.mu.Lock()
+			o.removing--
+			st.mu.Unlock()
+		}()
 		var err error
 		if kind == "remove" {
 			zzsim.SetNode("server")
@@ -282,7 +349,23 @@ func (c16) Run(c *core.Case, env *core.Env) {
 			for i, op := range by[a] {
 				switch op.Kind {
 				case "add":
-					add(a)
+					add(a, nil)
+				case "readd":
+					prev := pick(op.X)
+					st.mu.Lock()
+					// only once its removal is over (nobody adds an object
+					// again while its termination hook may still be running)
+					ok := prev.slot != 0 && len(prev.removeRets) > 0 && prev.removing == 0 && !prev.readded
+					if ok {
+						prev.readded = true
+					}
+					st.mu.Unlock()
+					if ok {
+						lifeMu.Lock()
+						add(a, prev)
+						lifeMu.Unlock()
+						env.Probe("implementations-added-again")
+					}
 				case "call":
 					o := pick(op.X)
 					c16call(env, a, i, o, int(op.Y))
@@ -395,6 +478,10 @@ func (c16) Check(c *core.Case, env *core.Env, res zzsim.Result, v *core.Verdict)
 		}
 		name := fmt.Sprintf("object slot %d (id %d)", o.slot, o.id)
 		terms := o.impl.Terminated()
+		if o.frozen {
+			terms = o.termAt
+		}
+		terms -= o.termBase
 		if terms > 1 {
 			bad("terminated-twice", "%s: termination hook ran %d times", name, terms)
 		}
@@ -431,7 +518,7 @@ func (c16) Check(c *core.Case, env *core.Env, res zzsim.Result, v *core.Verdict)
 			for _, e := range execs {
 				if e.Key == key && (e.Method == "echo" || e.Method == "slow") {
 					ran++
-					if e.Obj != o.slot {
+					if e.Obj != o.execSlot {
 						bad("wrong-object", "%s: call %s ran on object slot %d", name, h, e.Obj)
 					}
 				}
